@@ -23,6 +23,12 @@ func NewPrefixAllocator(network netip.Prefix, prefixLength int) *PrefixAllocator
 	if delegBits < 0 || delegBits > 63 || prefixLength > network.Addr().BitLen() {
 		return nil
 	}
+	if !network.Addr().Is6() {
+		// Prefix delegation is IPv6 only. The index arithmetic works on the 16-byte
+		// form of the base, which for an IPv4 network is ::ffff:a.b.c.d: the
+		// delegated "prefixes" would lie far outside the configured network.
+		return nil
+	}
 	count := uint64(1) << uint(delegBits)
 	a := &PrefixAllocator{
 		base:         network.Masked().Addr(),
